@@ -1,14 +1,12 @@
 (* Proofs/Roles.v — C11: invariants of the PSET v2 role state machine (Model/Roles.v).
 
-   Proved for every start packet built by [init] and every operation list:
-     counts_match, no_duplicate_outpoints, kinds_compatible; from ANY state and for ANY operation:
-     modifiable_respected, locktime_is_max_of_selected_kind (full since fix 3710385),
-     multi_part_ops_atomic (full since fix: commits fd68736 and 7d6e201).
-   What today's code still violates is kept visible with a proved _partial and a _refuted witness
-   (vm_compute) replayed on the real code by the S oracle (harness/rolescheck.go, corpus/hist.txt):
-     finalized_inputs_frozen (AddInIssuance on a finalized input), reachable_roundtrips (setters that
-     write before SanityCheck).
-   The counterexamples of the first runs that /repo has repaired since are Examples that now behave. *)
+   All full (the code after the fix: commits listed in Model/Roles.v):
+     over every start packet built by [init] and every operation list: counts_match, no_duplicate_outpoints,
+       kinds_compatible, reachable_roundtrips (operation lists whose caller-written flags are three bits and
+       whose generator scalars are fresh — shown necessary for the flags);
+     from ANY state and for ANY operation: modifiable_respected, locktime_is_max_of_selected_kind,
+       multi_part_ops_atomic, finalized_inputs_frozen (multi-part operations and finalizers).
+   The counterexamples of the earlier runs are Examples that now behave; corpus/hist.txt replays them. *)
 From Coq Require Import List NArith ZArith Bool Lia.
 From Coq Require Import ZifyBool ZifyN ZifyNat.
 From GE Require Import Model.Roles.
@@ -842,10 +840,15 @@ Definition keeps_rp (f : core -> aux -> aux * lres) : Prop :=
   forall c a, aux_reparses a = true -> aux_reparses (fst (f c a)) = true.
 Definition lok_same (f : core -> aux -> aux * lres) : Prop := forall c a a', f c a = (a', LOk) -> a' = a.
 
+(* case analysis on every match, innermost scrutinee first *)
 Ltac crush_matches :=
-  repeat match goal with
-  | |- context[match ?x with _ => _ end] => destruct x
-  end.
+  repeat (match goal with
+  | |- context[match ?x with _ => _ end] =>
+      lazymatch x with
+      | context[match _ with _ => _ end] => fail
+      | _ => destruct x
+      end
+  end; cbv beta iota).
 
 Ltac tv := let c := fresh in let a := fresh in let H := fresh in
   intros c a H; erewrite aux_reparses_tapview; [exact H|]; cbv beta; crush_matches; reflexivity.
@@ -918,11 +921,421 @@ Lemma J_same : forall p, J p -> J (upd p (p_auxs p) (p_outs p) (g_scalars p)).
 Proof. intros p H; rewrite upd_same; exact H. Qed.
 
 (* the finalizers keep an input sane and do not touch what the parser looks at *)
+Ltac crush_hyp H :=
+  repeat (match type of H with
+  | context[match ?x with _ => _ end] =>
+      lazymatch x with
+      | context[match _ with _ => _ end] => fail
+      | _ => destruct x
+      end
+  end; cbv beta iota in H).
+
+Lemma finalize_witness_shape : forall a a', finalize_witness a = Some a' -> exists b, a' = set_a_fsw true (set_a_fss b a).
+Proof. intros a a' H; unfold finalize_witness in H; crush_hyp H; try discriminate; inversion H; eexists; reflexivity. Qed.
+Lemma finalize_nonwitness_shape : forall a a', finalize_nonwitness a = Some a' -> a' = set_a_fss true a.
+Proof. intros a a' H; unfold finalize_nonwitness in H; crush_hyp H; try discriminate; inversion H; reflexivity. Qed.
+Lemma finalize_taproot_shape : forall a a', finalize_taproot a = Some a' -> a' = set_a_fsw true a.
+Proof. intros a a' H; unfold finalize_taproot in H; crush_hyp H; try discriminate; inversion H; reflexivity. Qed.
+
+Lemma in_sane_fsw : forall a u, a_w a = Some u -> in_sane a = true -> in_sane (set_a_fsw true a) = true.
+Proof. intros a u Hw H; destruct a; cbn in *; subst; exact H. Qed.
+Lemma in_sane_fss : forall a b, in_sane (set_a_fss b a) = in_sane a.
+Proof. intros a b; destruct a; reflexivity. Qed.
+Lemma in_sane_psigs : forall a l, in_sane (set_a_psigs l a) = in_sane a.
+Proof. intros a l; destruct a; reflexivity. Qed.
+
+(* the result of finalize_local on an input: the input itself, or final scripts set (and partial signatures dropped) *)
+Lemma finalize_local_shape : forall c a,
+  fst (finalize_local c a) = a
+  \/ (exists u, a_w a = Some u /\ fst (finalize_local c a) = set_a_fsw true a)
+  \/ (exists u b, a_w a = Some u /\ fst (finalize_local c a) = set_a_psigs [] (set_a_fsw true (set_a_fss b a)))
+  \/ fst (finalize_local c a) = set_a_psigs [] (set_a_fss true a).
+Proof.
+  intros c a; unfold finalize_local. destruct (a_w a) as [u|] eqn:Ew.
+  - destruct (is_taproot a).
+    + destruct (finalize_taproot a) as [a'|] eqn:E; [|left; reflexivity].
+      apply finalize_taproot_shape in E; subst. right; left; exists u; split; [reflexivity|reflexivity].
+    + destruct (finalize_witness a) as [a'|] eqn:E; [|left; reflexivity].
+      apply finalize_witness_shape in E as [b E]; subst. right; right; left; exists u, b; split; [reflexivity|reflexivity].
+  - destruct (a_nw a); [|left; reflexivity].
+    destruct (finalize_nonwitness a) as [a'|] eqn:E; [|left; reflexivity].
+    apply finalize_nonwitness_shape in E; subst. right; right; right; reflexivity.
+Qed.
+
 Lemma finalize_local_sane : forall c a, in_sane a = true -> in_sane (fst (finalize_local c a)) = true.
 Proof.
-  intros c a H; unfold finalize_local, finalize_taproot, finalize_witness, finalize_nonwitness.
-  unfold in_sane in *. destruct (a_w a) eqn:Ew; crush_matches; cbn [fst]; auto; cbn; rewrite ?Ew; cbn; auto;
-    try (rewrite Ew in H; exact H).
+  intros c a H. destruct (finalize_local_shape c a) as [E|[[u [Hw E]]|[[u [b [Hw E]]]|E]]]; rewrite E.
+  - exact H.
+  - eapply in_sane_fsw; eauto.
+  - rewrite in_sane_psigs. eapply in_sane_fsw; [|rewrite in_sane_fss; exact H]. destruct a; exact Hw.
+  - rewrite in_sane_psigs, in_sane_fss; exact H.
+Qed.
+
+Lemma finalize_local_rp : forall c a, aux_reparses (fst (finalize_local c a)) = aux_reparses a.
+Proof.
+  intros c a. destruct (finalize_local_shape c a) as [E|[[u [Hw E]]|[[u [b [Hw E]]]|E]]]; rewrite E;
+    destruct a; reflexivity.
+Qed.
+
+Lemma maybe_finalize_local_sane : forall c a, in_sane a = true -> in_sane (fst (maybe_finalize_local c a)) = true.
+Proof.
+  intros c a H; unfold maybe_finalize_local. destruct (finalized a); [exact H|].
+  destruct (is_finalizable c a) as [[|]|]; auto. apply finalize_local_sane; auto.
+Qed.
+Lemma maybe_finalize_local_rp : forall c a, aux_reparses (fst (maybe_finalize_local c a)) = aux_reparses a.
+Proof.
+  intros c a; unfold maybe_finalize_local. destruct (finalized a); [reflexivity|].
+  destruct (is_finalizable c a) as [[|]|]; auto. apply finalize_local_rp.
+Qed.
+
+(* the loop of FinalizeAll / MaybeFinalizeAll *)
+Lemma finalize_loop_inv : forall (f : core -> aux -> aux * lres) (P : aux -> bool),
+  (forall c a, P a = true -> P (fst (f c a)) = true) ->
+  forall fuel cs n auxs outs sc auxs' r, finalize_loop f cs n fuel auxs outs sc = (auxs', r) ->
+  forallb P auxs = true -> forallb P auxs' = true.
+Proof.
+  intros f P Hf; induction fuel as [|fuel IH]; intros cs n auxs outs sc auxs' r H Hp; cbn in H.
+  - destruct cs; inversion H; subst; auto.
+  - destruct cs as [|c cs]; [inversion H; subst; auto|]. cbn [finalize_loop] in H. revert H.
+    destruct (nth_error auxs n) as [x|] eqn:En; [|intro H; inversion H; subst; auto].
+    pose proof (Hf c x (forallb_nth _ _ _ _ Hp En)) as Hx.
+    destruct (f c x) as [a' r'] eqn:Ef. cbn [fst] in Hx.
+    assert (forallb P (set_nth n a' auxs) = true) as Hs by (apply forallb_set_nth; auto).
+    destruct (finish r' (sanity_parts (set_nth n a' auxs) outs sc)); intro H.
+    + exact (IH _ _ _ _ _ _ _ H Hs).
+    + inversion H; subst; exact Hs.
+    + inversion H; subst; exact Hs.
+Qed.
+
+Lemma sanity_parts_auxs : forall auxs auxs' outs sc, sanity_parts auxs outs sc = true ->
+  forallb in_sane auxs' = true -> sanity_parts auxs' outs sc = true.
+Proof.
+  intros auxs auxs' outs sc H H'; unfold sanity_parts in *.
+  apply andb_prop in H as [H1 H3]; apply andb_prop in H1 as [_ H2]. rewrite H', H2, H3; reflexivity.
+Qed.
+Lemma sanity_parts_in_sane : forall auxs outs sc, sanity_parts auxs outs sc = true -> forallb in_sane auxs = true.
+Proof. intros auxs outs sc H; unfold sanity_parts in H. apply andb_prop in H as [H1 _]; apply andb_prop in H1 as [H1 _]; exact H1. Qed.
+
+Lemma staged_fst_J : forall p x, J p ->
+  (forall auxs outs sc, x = ((auxs, outs, sc), Ok) -> J (upd p auxs outs sc)) ->
+  J (fst (let '((auxs, outs, sc), r) := staged_parts p x in (upd p auxs outs sc, r))).
+Proof.
+  intros p [[[a o] s0] r] Hj Hok; unfold staged_parts; cbn [snd]. destruct r; cbn [fst].
+  - apply Hok; reflexivity.
+  - apply J_same; auto.
+  - apply J_same; auto.
+Qed.
+
+Lemma on_input_staged_J : forall p i g f, J p -> keeps_rp f -> lok_same f ->
+  J (fst (let '((auxs, outs, sc), r) := staged_parts p (on_input p i g f) in (upd p auxs outs sc, r))).
+Proof.
+  intros p i g f Hj Hk Hl. apply staged_fst_J; auto. intros auxs outs sc E.
+  destruct (on_input_J _ _ _ _ _ _ _ _ E Hk (J_auxs _ Hj)) as (A1 & A2 & A3).
+  pose proof (on_input_sane _ _ _ _ _ _ _ E Hl (J_sane _ Hj)) as A4. subst outs sc.
+  apply J_upd; auto; [apply (J_sc _ Hj)|apply (J_outs _ Hj)].
+Qed.
+
+Lemma on_output_staged_J : forall p i f, J p -> (forall o, out_reparses (fst (f o)) = out_reparses o) ->
+  (forall o o', f o = (o', LOk) -> o' = o) ->
+  J (fst (let '((auxs, outs, sc), r) := staged_parts p (on_output p i f) in (upd p auxs outs sc, r))).
+Proof.
+  intros p i f Hj Hk Hl. apply staged_fst_J; auto. intros auxs outs sc E.
+  destruct (on_output_J _ _ _ _ _ _ _ E Hk (J_outs _ Hj)) as (A1 & A2 & A3).
+  pose proof (on_output_sane _ _ _ _ _ _ E Hl (J_sane _ Hj)) as A4.
+  apply on_output_parts in E as (L & _ & _). subst auxs sc.
+  apply J_upd; auto; [apply (J_sc _ Hj)|apply (J_auxs _ Hj)].
+Qed.
+
+Lemma forallb_repeat {A} : forall (f : A -> bool) x n, f x = true -> forallb f (repeat x n) = true.
+Proof. intros f x n H; induction n; cbn; auto. rewrite H; auto. Qed.
+Lemma existsb_map_false {A B} : forall (f : B -> bool) (g : A -> B) l,
+  (forall a, f (g a) = false) -> existsb f (map g l) = false.
+Proof. intros f g l H; induction l; cbn; auto. rewrite H; auto. Qed.
+
+(* the structural operations *)
+Lemma add_inputs_J : forall l p p', add_inputs p l = Some p' -> forallb (fun a => ia_cls a =? 0) l = true ->
+  sanity p' = true -> J p -> J p'.
+Proof.
+  intros l p p' H Hv Hs Hj. pose proof (add_inputs_cm _ _ _ H (J_cm _ Hj)) as Hcm.
+  apply add_inputs_inv in H as (A1 & A2 & A3 & A4 & A5 & A6 & A7 & A8 & _).
+  constructor; auto.
+  - unfold flags_ok; rewrite A3; apply (J_flags _ Hj).
+  - rewrite A5; apply (J_sc _ Hj).
+  - rewrite A6, forallb_app, (J_cores _ Hj); cbn [andb].
+    clear -Hv. induction l as [|a l IH]; cbn in *; auto. apply andb_prop in Hv as [H1 H2].
+    unfold core_reparses, to_core; cbn. apply N.eqb_eq in H1; rewrite H1; cbn. auto.
+  - rewrite A7, forallb_app, (J_auxs _ Hj); cbn [andb]. apply forallb_repeat; reflexivity.
+  - rewrite A8; apply (J_outs _ Hj).
+Qed.
+
+Lemma add_outputs_J : forall l p p', add_outputs p l = Some p' -> forallb out_reparses l = true ->
+  sanity p' = true -> J p -> J p'.
+Proof.
+  intros l p p' H Hv Hs Hj. pose proof (add_outputs_cm _ _ _ H (J_cm _ Hj)) as Hcm.
+  apply add_outputs_inv in H as (A1 & A2 & A3 & A4 & A5 & A6 & A7 & A8 & _).
+  constructor; auto.
+  - unfold flags_ok; rewrite A3; apply (J_flags _ Hj).
+  - rewrite A5; apply (J_sc _ Hj).
+  - rewrite A6; apply (J_cores _ Hj).
+  - rewrite A7; apply (J_auxs _ Hj).
+  - rewrite A8, forallb_app, (J_outs _ Hj), Hv; reflexivity.
+Qed.
+
+Lemma to_outp_reparses : forall l, forallb outarg_valid l = true -> forallb out_reparses (map to_outp l) = true.
+Proof.
+  induction l as [|a l IH]; cbn; intro H; auto. apply andb_prop in H as [H1 H2]. rewrite IH; auto.
+  unfold outarg_valid in H1. apply andb_prop in H1 as [H1 H3]; apply andb_prop in H1 as [H1 _].
+  unfold out_reparses, to_outp; cbn. rewrite H1, H3; reflexivity.
+Qed.
+
+Lemma mk_out_reparses : forall v addr b, out_reparses (mk_out v addr b) = true.
+Proof. intros v addr b; unfold out_reparses, mk_out, addr_bk; cbn. destruct (addr =? 2); reflexivity. Qed.
+
+(* the blinder *)
+Lemma fold_iss_rp : forall (iss : list (N * bool)) l, forallb aux_reparses l = true ->
+  forallb aux_reparses (fold_left (fun l y =>
+               match nth_error l (N.to_nat (fst y)) with
+               | Some ax => set_nth (N.to_nat (fst y)) (set_a_issblind (snd y) ax) l
+               | None => l end) iss l) = true.
+Proof.
+  induction iss as [|y iss IH]; intros l H; cbn [fold_left]; auto. apply IH.
+  destruct (nth_error l (N.to_nat (fst y))) as [ax|] eqn:E; auto.
+  apply forallb_set_nth; auto. pose proof (forallb_nth _ _ _ _ H E) as Hx. destruct ax; exact Hx.
+Qed.
+
+Lemma blind_outs_rp : forall a l outs outs' d, blind_outs a l outs = (outs', d) ->
+  forallb out_reparses outs = true -> forallb out_reparses outs' = true.
+Proof.
+  intros a l; induction l as [|[i c] l IH]; intros outs outs' d H Ho; cbn in H.
+  - inversion H; subst; auto.
+  - destruct (bl_last a && match l with [] => true | _ => false end && ((bl_gfail a =? 2) || (bl_gfail a =? 3))).
+    + inversion H; subst; auto.
+    + destruct (nth_error outs (N.to_nat i)) as [o|] eqn:E; [|inversion H; subst; auto].
+      eapply IH; eauto. apply forallb_set_nth; auto.
+      pose proof (forallb_nth _ _ _ _ Ho E) as Hx. destruct o; exact Hx.
+Qed.
+
+Lemma do_blind_J : forall p a, J p -> op_ok p (OBlind a) ->
+  J (fst (let '((auxs, outs, sc), r) := do_blind p a in (upd p auxs outs sc, r))).
+Proof.
+  intros p a Hj Hok. destruct (do_blind p a) as [[[auxs outs] sc] r] eqn:H. cbn [fst].
+  destruct (outcome_eq_dec r Ok) as [->|Hr].
+  2:{ apply do_blind_not_ok in H; auto. inversion H; subst. apply J_same; auto. }
+  pose proof (do_blind_len _ _ _ _ _ _ H) as Hlen.
+  unfold do_blind in H.
+  destruct (negb (sanity p)); [inversion H|].
+  destruct (negb (needs_blinding p)); [inversion H|].
+  destruct (bl_owned a) as [|o0 orest] eqn:Eo; [inversion H|]. rewrite <- Eo in H.
+  pose proof (owned_validate_same p (bl_owned a) (p_auxs p)) as F1.
+  destruct (owned_validate p (p_auxs p) (bl_owned a)) as [auxs1|auxs1 o1]; cbn [bres_auxs] in F1; subst auxs1;
+    [|inversion H; subst; apply J_same; auto].
+  destruct (is_fully_blinded p); [inversion H; subst; apply J_same; auto|].
+  match type of H with (if ?b then _ else _) = _ => destruct b end; [inversion H|].
+  destruct (negb (outargs_validate p (bl_last a) (sort_by_idx (bl_outs a)))); [inversion H|].
+  pose proof (prevout_loop_same (bl_owned a) (p_cores p) 0 (p_auxs p)) as F2.
+  destruct (prevout_loop (p_cores p) 0 (p_auxs p) (bl_owned a)) as [auxs2|auxs2 o2]; cbn [bres_auxs] in F2; subst auxs2;
+    [|inversion H; subst; apply J_same; auto].
+  destruct (negb (outargs_proofs p a (sort_by_idx (bl_outs a)))); [inversion H|].
+  destruct (bl_gfail a =? 1); [inversion H|].
+  destruct (sort_by_idx (bl_outs a)) as [|x0 xs] eqn:Es; [inversion H|]. rewrite <- Es in H.
+  destruct (blind_outs a (sort_by_idx (bl_outs a)) (p_outs p)) as [outs' done] eqn:Eb.
+  destruct (negb done); [inversion H|].
+  match type of H with (if ?b then _ else _) = _ => destruct b eqn:Esan end; inversion H; subst.
+  apply J_upd; auto.
+  - cbn in Hok. destruct (bl_last a); [reflexivity|]. destruct Hok as [Hok|Hok]; [discriminate|].
+    apply nodup_n_snoc; auto. apply (J_sc _ Hj).
+  - apply fold_iss_rp. apply (J_auxs _ Hj).
+  - eapply blind_outs_rp; eauto. apply (J_outs _ Hj).
+Qed.
+
+(* the signer's work on one input *)
+Lemma sign_local_rp : forall rsane bl sigok h k rs ws, keeps_rp (sign_local rsane bl sigok h k rs ws).
+Proof.
+  intros rsane bl sigok h k rs ws c a H. erewrite aux_reparses_tapview; [exact H|].
+  unfold sign_local, add_psig, nw_to_w. cbv zeta. crush_matches; reflexivity.
+Qed.
+
+Lemma sign_local_lok : forall rsane bl sigok h k rs ws, lok_same (sign_local rsane bl sigok h k rs ws).
+Proof.
+  intros rsane bl sigok h k rs ws c a a' H. unfold sign_local in H.
+  destruct (finalized a); [inversion H; reflexivity|].
+  exfalso. unfold add_psig, nw_to_w in H. cbv zeta in H. crush_hyp H; inversion H.
+Qed.
+
+Ltac tv2 := let c := fresh in let a := fresh in let H := fresh in
+  intros c a H; erewrite aux_reparses_tapview; [exact H|]; cbv beta zeta; crush_matches; reflexivity.
+Ltac lok2 := let c := fresh in let a := fresh in let a' := fresh in let H := fresh in
+  intros c a a' H; cbv beta zeta in H; crush_hyp H; try (inversion H; reflexivity); try discriminate.
+
+(* ----- one step keeps J ----- *)
+Lemma step_J : forall p o, J p -> op_ok p o -> J (fst (step p o)).
+Proof.
+  intros p o Hj Hok; destruct o; cbn [step local_step].
+  - (* setmod *) cbn. destruct Hj as [H1 H2 H3 H4 H5 H6 H7]. constructor; auto.
+    unfold flags_ok; cbn. destruct f; auto. cbn in Hok. apply N.ltb_lt; exact Hok.
+  - (* AddInputs *)
+    destruct (forallb (fun a => ia_cls a =? 0) l) eqn:Ev; cbn [negb]; [|exact Hj].
+    destruct (add_inputs p l) as [p'|] eqn:E; [|exact Hj].
+    unfold publish; destruct (sanity p') eqn:Es; cbn [fst]; [|exact Hj]. eapply add_inputs_J; eauto.
+  - (* AddOutputs *)
+    destruct (forallb outarg_valid l) eqn:Ev; cbn [negb]; [|exact Hj].
+    destruct (add_outputs p (map to_outp l)) as [p'|] eqn:E; [|exact Hj].
+    unfold publish; destruct (sanity p') eqn:Es; cbn [fst]; [|exact Hj].
+    eapply add_outputs_J; eauto. apply to_outp_reparses; auto.
+  - apply on_input_staged_J; auto; [tv2|lok2].
+  - apply on_input_staged_J; auto; [tv2|lok2].
+  - apply on_input_staged_J; auto; [tv2|lok2].
+  - apply on_input_staged_J; auto; [tv2|lok2].
+  - apply on_input_staged_J; auto; [tv2|lok2].
+  - apply on_input_staged_J; auto; [tv2|lok2].
+  - apply on_input_staged_J; auto; [tv2|lok2].
+  - apply on_input_staged_J; auto; [unfold get_utxo; tv2|unfold get_utxo; lok2].
+  - apply on_input_staged_J; auto; [unfold get_utxo; tv2|unfold get_utxo; lok2].
+  - (* issue *) unfold do_issue.
+    destruct (negb (issue_validate a)); [exact Hj|].
+    destruct (p_cores p) eqn:Ecs; [exact Hj|].
+    destruct (in_index p i true) as [[[n c0] ax]|o] eqn:Ei; [|exact Hj].
+    destruct (a_entropy ax); [exact Hj|]. destruct (finalized ax); [exact Hj|]. destruct (c_short c0); [exact Hj|].
+    apply in_index_inl in Ei as [_ Hax].
+    match goal with |- context[add_outputs ?p1 ?l] => destruct (add_outputs p1 l) as [p2|] eqn:E end; [|exact Hj].
+    unfold publish; destruct (sanity p2) eqn:Es; cbn [fst]; [|exact Hj].
+    eapply add_outputs_J; [exact E| |exact Es|].
+    + destruct (0 <? is_tamt a); unfold forallb; rewrite !mk_out_reparses; reflexivity.
+    + destruct Hj as [H1 H2 H3 H4 H5 H6 H7]. constructor; cbn [upd g_nin g_nout g_flags g_fallback g_scalars p_cores p_auxs p_outs]; auto.
+      * unfold sanity; cbn [upd g_scalars p_auxs p_outs]. eapply sanity_parts_auxs; [exact H1|].
+        apply forallb_set_nth; [apply (sanity_parts_in_sane _ _ _ H1)|].
+        pose proof (forallb_nth _ _ _ _ (sanity_parts_in_sane _ _ _ H1) Hax) as Hx. destruct ax; exact Hx.
+      * apply forallb_set_nth; auto. pose proof (forallb_nth _ _ _ _ H6 Hax) as Hx. destruct ax; exact Hx.
+  - (* reissue *) unfold do_reissue.
+    destruct (in_index p i true) as [[[n c0] ax]|o] eqn:Ei; [|exact Hj].
+    destruct (a_entropy ax); [exact Hj|]. destruct (negb (reissue_validate a)); [exact Hj|]. destruct (finalized ax); [exact Hj|].
+    apply in_index_inl in Ei as [_ Hax].
+    match goal with |- context[add_outputs ?p1 ?l] => destruct (add_outputs p1 l) as [p2|] eqn:E end; [|exact Hj].
+    unfold publish. match goal with |- context[sanity ?q] => destruct (sanity q) eqn:Es end; cbn [fst]; [|exact Hj].
+    pose proof (add_outputs_cm _ _ _ E (J_cm _ Hj)) as [C1 C2].
+    apply add_outputs_inv in E as (A1 & A2 & A3 & A4 & A5 & A6 & A7 & A8 & _).
+    constructor; cbn [upd g_nin g_nout g_flags g_fallback g_scalars p_cores p_auxs p_outs]; auto.
+    + split; cbn; auto.
+    + unfold flags_ok; cbn; rewrite A3; apply (J_flags _ Hj).
+    + rewrite A5; apply (J_sc _ Hj).
+    + rewrite A6; apply (J_cores _ Hj).
+    + rewrite A7. apply forallb_set_nth; [apply (J_auxs _ Hj)|].
+      pose proof (forallb_nth _ _ _ _ (J_auxs _ Hj) Hax) as Hx. destruct ax; exact Hx.
+    + rewrite A8, forallb_app, (J_outs _ Hj); unfold forallb. rewrite !mk_out_reparses; reflexivity.
+  - apply on_input_staged_J; auto; [tv2|lok2].
+  - apply on_input_staged_J; auto; [tv2|lok2].
+  - apply on_input_staged_J; auto; [tv2|lok2].
+  - (* tap bip32: a second derivation for the same key is refused *)
+    apply on_input_staged_J; auto; [|lok2].
+    intros c a H; cbv beta. destruct (existsb (fun x => tb_key x =? tb_key d) (a_tapbip32 a)) eqn:E; cbn [fst]; [exact H|].
+    unfold aux_reparses in *; cbn. apply andb_prop in H as [H1 H3]. rewrite H1; cbn [andb].
+    rewrite map_app; cbn. apply nodup_n_snoc; auto.
+    rewrite <- E. clear. induction (a_tapbip32 a) as [|x l IH]; cbn; auto. rewrite IH; reflexivity.
+  - apply on_output_staged_J; [exact Hj| |].
+    + intro o; cbv beta; crush_matches; try reflexivity; destruct o; reflexivity.
+    + intros o o' H; cbv beta in H; crush_hyp H; inversion H; reflexivity.
+  - apply on_output_staged_J; [exact Hj|intro o; destruct o; reflexivity|intros o o' H; inversion H].
+  - apply on_output_staged_J; [exact Hj|intro o; destruct o; reflexivity|intros o o' H; inversion H].
+  - (* sign *) destruct (in_index p i true) as [[[n c0] ax]|o]; [|apply J_same; auto].
+    apply on_input_staged_J; auto; [apply sign_local_rp|apply sign_local_lok].
+  - apply on_input_staged_J; auto; [tv2|lok2].
+  - (* tapscript signature: the parser's checks are applied before the write *)
+    apply on_input_staged_J; auto; [|lok2].
+    intros c a H; cbv beta. destruct (finalized a); [exact H|]. destruct (0 <? a_tapkeysig a); [exact H|].
+    destruct ((ts_pklen s =? 32) && (ts_lhlen s =? 32)) eqn:E1; cbn [negb]; [|exact H].
+    destruct (siglen_ok (ts_siglen s)); cbn [negb]; [|exact H].
+    destruct (existsb (fun x => (ts_pk x =? ts_pk s) && (ts_leaf x =? ts_leaf s)) (a_tapss a)) eqn:E2; cbn [fst]; [exact H|].
+    unfold aux_reparses in *; cbn. apply andb_prop in H as [H1 H3]; apply andb_prop in H1 as [H1 H2].
+    rewrite H3, andb_true_r. apply andb_prop in E1 as [P1 P2]. apply N.eqb_eq in P1, P2.
+    rewrite forallb_app, H1; cbn. rewrite P1, P2; cbn.
+    rewrite map_app; cbn.
+    clear -H2 E2. induction (a_tapss a) as [|x l IH]; cbn in *; auto.
+    apply andb_prop in H2 as [Q1 Q2]. apply orb_false_elim in E2 as [R1 R2].
+    rewrite existsb_app; cbn. rewrite (N.eqb_sym (ts_pk s)), (N.eqb_sym (ts_leaf s)), R1, orb_false_r, Q1; cbn. auto.
+  - (* blinder *) apply do_blind_J; auto.
+  - (* Finalize, on the live packet *)
+    destruct ((i <? 0)%Z || (Z.of_nat (length (p_auxs p)) <=? i)%Z); [apply J_same; auto|].
+    destruct (nth_error (p_cores p) (Z.to_nat i)) as [c|]; [|apply J_same; auto].
+    destruct (nth_error (p_auxs p) (Z.to_nat i)) as [x|] eqn:Ex; [|apply J_same; auto].
+    pose proof (finalize_local_sane c x) as S1. pose proof (finalize_local_rp c x) as S2.
+    destruct (finalize_local c x) as [a' r']; cbn [fst] in *.
+    apply J_upd; auto; [| apply (J_sc _ Hj) | | apply (J_outs _ Hj)].
+    + eapply sanity_parts_auxs; [apply (J_sane _ Hj)|]. apply forallb_set_nth; [apply (sanity_parts_in_sane _ _ _ (J_sane _ Hj))|].
+      apply S1. exact (forallb_nth _ _ _ _ (sanity_parts_in_sane _ _ _ (J_sane _ Hj)) Ex).
+    + apply forallb_set_nth; [apply (J_auxs _ Hj)|]. rewrite S2. exact (forallb_nth _ _ _ _ (J_auxs _ Hj) Ex).
+  - destruct ((i <? 0)%Z || (Z.of_nat (length (p_auxs p)) <=? i)%Z); [apply J_same; auto|].
+    destruct (nth_error (p_cores p) (Z.to_nat i)) as [c|]; [|apply J_same; auto].
+    destruct (nth_error (p_auxs p) (Z.to_nat i)) as [x|] eqn:Ex; [|apply J_same; auto].
+    pose proof (maybe_finalize_local_sane c x) as S1. pose proof (maybe_finalize_local_rp c x) as S2.
+    destruct (maybe_finalize_local c x) as [a' r']; cbn [fst] in *.
+    apply J_upd; auto; [| apply (J_sc _ Hj) | | apply (J_outs _ Hj)].
+    + eapply sanity_parts_auxs; [apply (J_sane _ Hj)|]. apply forallb_set_nth; [apply (sanity_parts_in_sane _ _ _ (J_sane _ Hj))|].
+      apply S1. exact (forallb_nth _ _ _ _ (sanity_parts_in_sane _ _ _ (J_sane _ Hj)) Ex).
+    + apply forallb_set_nth; [apply (J_auxs _ Hj)|]. rewrite S2. exact (forallb_nth _ _ _ _ (J_auxs _ Hj) Ex).
+  - (* FinalizeAll *)
+    destruct (finalize_loop finalize_local (p_cores p) 0 (length (p_cores p)) (p_auxs p) (p_outs p) (g_scalars p)) as [auxs r] eqn:E.
+    apply staged_fst_J; auto. intros auxs0 outs0 sc0 E0; inversion E0; subst.
+    apply J_upd; auto; [| apply (J_sc _ Hj) | | apply (J_outs _ Hj)].
+    + eapply sanity_parts_auxs; [apply (J_sane _ Hj)|].
+      eapply (finalize_loop_inv finalize_local in_sane finalize_local_sane); eauto. apply (sanity_parts_in_sane _ _ _ (J_sane _ Hj)).
+    + eapply (finalize_loop_inv finalize_local aux_reparses); eauto; [|apply (J_auxs _ Hj)].
+      intros c a H; rewrite finalize_local_rp; exact H.
+  - destruct (finalize_loop maybe_finalize_local (p_cores p) 0 (length (p_cores p)) (p_auxs p) (p_outs p) (g_scalars p)) as [auxs r] eqn:E.
+    cbn [fst]. apply J_upd; auto; [| apply (J_sc _ Hj) | | apply (J_outs _ Hj)].
+    + eapply sanity_parts_auxs; [apply (J_sane _ Hj)|].
+      eapply (finalize_loop_inv maybe_finalize_local in_sane maybe_finalize_local_sane); eauto. apply (sanity_parts_in_sane _ _ _ (J_sane _ Hj)).
+    + eapply (finalize_loop_inv maybe_finalize_local aux_reparses); eauto; [|apply (J_auxs _ Hj)].
+      intros c a H; rewrite maybe_finalize_local_rp; exact H.
+Qed.
+
+Lemma init_J : forall ins outs fb p0, init ins outs fb = IOk p0 -> J p0.
+Proof.
+  intros ins outs fb p0 H. apply init_inv in H as (V1 & V2 & p & E & H).
+  assert (J (empty_pset fb)) as J0 by (constructor; try reflexivity; split; reflexivity).
+  assert (sanity p = true) as Sp.
+  { pose proof E as E'. apply add_inputs_inv in E' as (_ & _ & _ & _ & A5 & _ & A7 & A8 & _).
+    unfold sanity, sanity_parts. rewrite A5, A7, A8; cbn. rewrite forallb_repeat; reflexivity. }
+  pose proof (add_inputs_J _ _ _ E V1 Sp J0) as Jp.
+  assert (sanity p0 = true) as Sp0.
+  { pose proof H as H'. apply add_outputs_inv in H' as (_ & _ & _ & _ & A5 & _ & A7 & A8 & _).
+    pose proof E as E'. apply add_inputs_inv in E' as (_ & _ & _ & _ & B5 & _ & _ & B8 & _). cbn in B5, B8.
+    unfold sanity, sanity_parts. rewrite A5, A7, A8, B5, B8; cbn [app].
+    rewrite (sanity_parts_in_sane _ _ _ Sp). cbn [andb].
+    assert (existsb o_blinded (map to_outp outs) = false) as -> by (apply existsb_map_false; reflexivity).
+    cbn [andb negb]. rewrite andb_true_r.
+    clear -V2. induction outs as [|a l IH]; cbn in *; auto. apply andb_prop in V2 as [Q1 Q2]. rewrite IH, andb_true_r; auto.
+    unfold outarg_valid in Q1. apply andb_prop in Q1 as [Q1 _]; apply andb_prop in Q1 as [Q1 _].
+    unfold out_sane, to_outp; cbn. rewrite Q1; reflexivity. }
+  eapply add_outputs_J; eauto. apply to_outp_reparses; auto.
+Qed.
+
+Lemma good_run_J : forall ops p, J p -> good_run p ops -> J (run p ops).
+Proof.
+  induction ops as [|o ops IH]; intros p Hj Hg; cbn in *; auto. destruct Hg as [H1 H2]. apply IH; auto. apply step_J; auto.
+Qed.
+
+(* ===== after any operation history the packet serialises and re-parses to itself ===== *)
+Theorem reachable_roundtrips : forall ins outs fb p0 ops,
+  init ins outs fb = IOk p0 -> good_run p0 ops -> rt (run p0 ops) = true.
+Proof. intros ins outs fb p0 ops H Hg. apply J_rt. apply good_run_J; auto. eapply init_J; eauto. Qed.
+
+(* the side condition on the caller's flags is needed: a bit set above 7 is written and refused by the parser *)
+Theorem reachable_roundtrips_needs_three_bit_flags :
+  exists p0, init [] [] None = IOk p0 /\ rt (fst (step p0 (OSetMod (Some 8)))) = false.
+Proof. eexists; split; vm_compute; reflexivity. Qed.
+
+(* the old counterexamples now behave: a failed AddInWitnessScript leaves nothing (fix 0ac2234); New refuses a 31-byte
+   txid (fix cc83b33); 253 inputs and both locktimes round-trip (fixes 1bba04e, c50dc2e) *)
+Example roundtrip_regressions :
+  (exists p0, init [mk_in 0 0 0 0] [] None = IOk p0 /\ step p0 (OWScript 0%Z (Some (SMs 2))) = (p0, Err))
+  /\ init [{| ia_cls := 3; ia_t := 0; ia_idx := 0; ia_seq := 0; ia_height := 0; ia_time := 0 |}] [] None = IErr
+  /\ (exists p0, init [] [] None = IOk p0 /\
+     rt (fst (step p0 (OAddInputs (map (fun k => mk_in 0 (N.of_nat k) 0 0) (seq 0 253))))) = true)
+  /\ (exists p0, init [mk_in 0 0 100 500000005; mk_in 1 0 100 0] [] None = IOk p0 /\ rt p0 = true).
+Proof.
+  split; [eexists; split; [vm_compute; reflexivity|]; vm_compute; reflexivity|].
+  split; [vm_compute; reflexivity|].
+  split; eexists; (split; [vm_compute; reflexivity|]); vm_compute; reflexivity.
 Qed.
 
 (* ---------- the hypotheses of the theorems are satisfiable: a packet with two inputs and an output,
@@ -934,7 +1347,7 @@ Definition ex_ops :=
    OSign 0%Z true 1 (Some 0) None None; OFinalize 0%Z; OAddInputs [mk_in 2 1 0 0]].
 
 Example ex_init_ok : exists p0, init ex_ins ex_outs (Some 77) = IOk p0 /\ g_nin (run p0 ex_ops) = 3
-  /\ inarg_plain (mk_in 0 0 0 0) /\ locktime (run p0 ex_ops) = 77.
+  /\ ia_cls (mk_in 0 0 0 0) = 0 /\ locktime (run p0 ex_ops) = 77.
 Proof. eexists; split; [vm_compute; reflexivity|]. repeat split; vm_compute; reflexivity. Qed.
 
 Example ex_finalized : exists p0 a, init ex_ins ex_outs None = IOk p0 /\
